@@ -73,13 +73,9 @@ pub fn tree_spec() -> BuilderSpec {
 
 fn tree<F: Float>(case: &Case, spec: &BuilderSpec, out: &mut Outcome) {
     let ds = Dataset::new(xmat::<F>(), labels());
-    let make = || {
-        DecisionTree::<F, usize>::params()
-            .min_impurity_decrease(F::cast(case.f("min_impurity_decrease")))
-            .max_depth(case.ou("max_depth").map(|d| d as usize))
-            .split_quality(if case.s("split_quality") == "gini" { SplitQuality::Gini } else { SplitQuality::Entropy })
-            .min_weight_leaf(case.f("min_weight_leaf") as f32)
-    };
+    let base = || DecisionTree::<F, usize>::params();
+    let set = setter(&base, |mut p, c| { if c.moved(&["min_impurity_decrease"]) { p = p.min_impurity_decrease(F::cast(c.f("min_impurity_decrease"))); } if c.moved(&["max_depth"]) { p = p.max_depth(c.ou("max_depth").map(|d| d as usize)); } if c.moved(&["split_quality"]) { p = p.split_quality(if c.s("split_quality") == "gini" { SplitQuality::Gini } else { SplitQuality::Entropy }); } if c.moved(&["min_weight_leaf"]) { p = p.min_weight_leaf(c.f("min_weight_leaf") as f32); } p });
+    let make = || set(base(), case);
     let show = |m: &DecisionTree<F, usize>| format!("depth={} leaves={} predictions={:?}", m.max_depth(), m.num_leaves(), m.predict(ds.records()));
     let ops = vec![op(
         &make,
@@ -88,7 +84,7 @@ fn tree<F: Float>(case: &Case, spec: &BuilderSpec, out: &mut Outcome) {
         |p| p.fit(&ds).map(|m| show(&m)).map_err(|e: linfa::Error| dbg(&e)),
         |e| dbg(&e),
     )];
-    judge(case, spec, &make, &|p| dbg(p), &|c| dbg(c), ops, out);
+    judge(case, spec, &base, &set, Some(&|p| p.clone()), &|p| dbg(p), &|c| dbg(c), ops, out);
 }
 
 // ------------------------------------------------------------------------------------------
@@ -118,7 +114,9 @@ pub fn multinomial_nb_spec() -> BuilderSpec {
 
 fn gnb<F: Float>(case: &Case, spec: &BuilderSpec, out: &mut Outcome) {
     let ds = Dataset::new(xmat::<F>(), labels());
-    let make = || GaussianNb::<F, usize>::params().var_smoothing(F::cast(case.f("var_smoothing")));
+    let base = || GaussianNb::<F, usize>::params();
+    let set = setter(&base, |mut p, c| { if c.moved(&["var_smoothing"]) { p = p.var_smoothing(F::cast(c.f("var_smoothing"))); } p });
+    let make = || set(base(), case);
     let show = |m: &GaussianNb<F, usize>| format!("predictions={:?}", m.predict(ds.records()));
     let ops = vec![
         op(
@@ -136,12 +134,14 @@ fn gnb<F: Float>(case: &Case, spec: &BuilderSpec, out: &mut Outcome) {
             |e| dbg(&e),
         ),
     ];
-    judge(case, spec, &make, &|p| dbg(p), &|c| dbg(c), ops, out);
+    judge(case, spec, &base, &set, Some(&|p| p.clone()), &|p| dbg(p), &|c| dbg(c), ops, out);
 }
 
 fn mnb<F: Float>(case: &Case, spec: &BuilderSpec, out: &mut Outcome) {
     let ds = Dataset::new(xmat::<F>(), labels());
-    let make = || MultinomialNb::<F, usize>::params().alpha(F::cast(case.f("alpha")));
+    let base = || MultinomialNb::<F, usize>::params();
+    let set = setter(&base, |mut p, c| { if c.moved(&["alpha"]) { p = p.alpha(F::cast(c.f("alpha"))); } p });
+    let make = || set(base(), case);
     let show = |m: &MultinomialNb<F, usize>| format!("predictions={:?}", m.predict(ds.records()));
     let ops = vec![
         op(
@@ -159,7 +159,7 @@ fn mnb<F: Float>(case: &Case, spec: &BuilderSpec, out: &mut Outcome) {
             |e| dbg(&e),
         ),
     ];
-    judge(case, spec, &make, &|p| dbg(p), &|c| dbg(c), ops, out);
+    judge(case, spec, &base, &set, Some(&|p| p.clone()), &|p| dbg(p), &|c| dbg(c), ops, out);
 }
 
 // ------------------------------------------------------------------------------------------
@@ -197,13 +197,9 @@ pub fn ftrl_spec() -> BuilderSpec {
 
 fn ftrl<F: Float>(case: &Case, spec: &BuilderSpec, out: &mut Outcome) {
     let ds = Dataset::new(xmat::<F>(), Array1::from_shape_fn(8, |i| LAB[i] == 1));
-    let make = || {
-        Ftrl::<F>::params_with_rng(Xoshiro256Plus::seed_from_u64(42))
-            .alpha(F::cast(case.f("alpha")))
-            .beta(F::cast(case.f("beta")))
-            .l1_ratio(F::cast(case.f("l1_ratio")))
-            .l2_ratio(F::cast(case.f("l2_ratio")))
-    };
+    let base = || Ftrl::<F>::params_with_rng(Xoshiro256Plus::seed_from_u64(42));
+    let set = setter(&base, |mut p, c| { if c.moved(&["alpha"]) { p = p.alpha(F::cast(c.f("alpha"))); } if c.moved(&["beta"]) { p = p.beta(F::cast(c.f("beta"))); } if c.moved(&["l1_ratio"]) { p = p.l1_ratio(F::cast(c.f("l1_ratio"))); } if c.moved(&["l2_ratio"]) { p = p.l2_ratio(F::cast(c.f("l2_ratio"))); } p });
+    let make = || set(base(), case);
     let ops = vec![op(
         &make,
         "fit_with",
@@ -211,7 +207,7 @@ fn ftrl<F: Float>(case: &Case, spec: &BuilderSpec, out: &mut Outcome) {
         |p| p.fit_with(None, &ds).map(|m| dbg(&m)).map_err(|e: FtrlError| dbg(&e)),
         |e| dbg(&e),
     )];
-    judge(case, spec, &make, &|p| dbg(p), &|c| dbg(c), ops, out);
+    judge(case, spec, &base, &set, Some(&|p| p.clone()), &|p| dbg(p), &|c| dbg(c), ops, out);
 }
 
 // ------------------------------------------------------------------------------------------
@@ -266,12 +262,9 @@ macro_rules! pls_builder {
             let x3 = Array2::from_shape_fn((8, 3), |(i, j)| if j < 2 { F::cast(X[i][j]) } else { F::cast(((i * 7) % 5) as f64 * 0.5) });
             let y2 = Array2::from_shape_fn((8, 2), |(i, j)| if j == 0 { F::cast(X[i][0] + 0.5 * X[i][1]) } else { F::cast(((i * 3) % 4) as f64 - X[i][1]) });
             let ds = Dataset::new(x3, y2);
-            let make = || {
-                $ty::<F>::params(case.u("n_components") as usize)
-                    .tolerance(F::cast(case.f("tolerance")))
-                    .max_iterations(case.u("max_iter") as usize)
-                    .algorithm(if case.s("algorithm") == "svd" { Algorithm::Svd } else { Algorithm::Nipals })
-            };
+            let base = || $ty::<F>::params(case.u("n_components") as usize);
+            let set = setter(&base, |mut p, c| { if c.moved(&["tolerance"]) { p = p.tolerance(F::cast(c.f("tolerance"))); } if c.moved(&["max_iter"]) { p = p.max_iterations(c.u("max_iter") as usize); } if c.moved(&["algorithm"]) { p = p.algorithm(if c.s("algorithm") == "svd" { Algorithm::Svd } else { Algorithm::Nipals }); } p });
+            let make = || set(base(), case);
             let ops = vec![op(
                 &make,
                 "fit",
@@ -280,7 +273,7 @@ macro_rules! pls_builder {
                 |e| dbg(&e),
             )];
             // the PLS builders implement neither Debug nor PartialEq: no snapshot
-            judge(case, spec, &make, &|_| String::new(), &|_| String::new(), ops, out);
+            judge(case, spec, &base, &set, None, &|_| String::new(), &|_| String::new(), ops, out);
         }
     };
 }
@@ -343,12 +336,9 @@ pub fn tsne_spec() -> BuilderSpec {
 
 fn tsne<F: Float>(case: &Case, spec: &BuilderSpec, out: &mut Outcome) {
     let data = Array2::from_shape_fn((10, 3), |(i, j)| F::cast(((i * (j + 2) * 7) % 11) as f64 * 0.25 + if i >= 5 { 4.0 } else { 0.0 }));
-    let make = || {
-        TSneParams::<F, _>::embedding_size_with_rng(2, Xoshiro256Plus::seed_from_u64(42))
-            .perplexity(F::cast(case.f("perplexity")))
-            .approx_threshold(F::cast(case.f("approx_threshold")))
-            .max_iter(case.u("max_iter") as usize)
-    };
+    let base = || TSneParams::<F, _>::embedding_size_with_rng(2, Xoshiro256Plus::seed_from_u64(42));
+    let set = setter(&base, |mut p, c| { if c.moved(&["perplexity"]) { p = p.perplexity(F::cast(c.f("perplexity"))); } if c.moved(&["approx_threshold"]) { p = p.approx_threshold(F::cast(c.f("approx_threshold"))); } if c.moved(&["max_iter"]) { p = p.max_iter(c.u("max_iter") as usize); } p });
+    let make = || set(base(), case);
     // t-SNE implements Transformer on the unchecked builder itself (linfa-tsne/src/lib.rs:62), both forms
     // return Result<_, TSneError>
     let ops = vec![op(
@@ -358,7 +348,7 @@ fn tsne<F: Float>(case: &Case, spec: &BuilderSpec, out: &mut Outcome) {
         |p| p.transform(data.clone()).map(|m| dbg(&m)).map_err(|e| dbg(&e)),
         |e| dbg(&e),
     )];
-    judge(case, spec, &make, &|p| dbg(p), &|c| dbg(c), ops, out);
+    judge(case, spec, &base, &set, Some(&|p| p.clone()), &|p| dbg(p), &|c| dbg(c), ops, out);
 }
 
 // ------------------------------------------------------------------------------------------
@@ -382,13 +372,13 @@ pub fn ica_spec() -> BuilderSpec {
 
 fn ica<F: Float>(case: &Case, spec: &BuilderSpec, out: &mut Outcome) {
     let ds = DatasetBase::from(xmat::<F>());
-    let make = || {
-        let mut p = FastIca::<F>::params().tol(F::cast(case.f("tol"))).max_iter(case.u("max_iter") as usize).random_state(42);
-        if let Some(n) = case.ou("ncomponents") {
-            p = p.ncomponents(n as usize);
-        }
-        p
+    // ncomponents has no "unset" setter: it stays a constructor-time choice of the point
+    let base = || match case.ou("ncomponents") {
+        Some(n) => FastIca::<F>::params().random_state(42).ncomponents(n as usize),
+        None => FastIca::<F>::params().random_state(42),
     };
+    let set = setter(&base, |mut p, c| { if c.moved(&["tol"]) { p = p.tol(F::cast(c.f("tol"))); } if c.moved(&["max_iter"]) { p = p.max_iter(c.u("max_iter") as usize); } p });
+    let make = || set(base(), case);
     let ops = vec![op(
         &make,
         "fit",
@@ -396,7 +386,7 @@ fn ica<F: Float>(case: &Case, spec: &BuilderSpec, out: &mut Outcome) {
         |p| p.fit(&ds).map(|m| dbg(&m)).map_err(|e: linfa_ica::error::FastIcaError| dbg(&e)),
         |e| dbg(&e),
     )];
-    judge(case, spec, &make, &|p| dbg(p), &|c| dbg(c), ops, out);
+    judge(case, spec, &base, &set, Some(&|p| p.clone()), &|p| dbg(p), &|c| dbg(c), ops, out);
 }
 
 // ------------------------------------------------------------------------------------------
@@ -431,10 +421,12 @@ pub fn diffusion_map_spec() -> BuilderSpec {
 fn dmap<F: Float>(case: &Case, spec: &BuilderSpec, out: &mut Outcome) {
     let data = xmat::<F>();
     let kernel = Kernel::params().method(KernelMethod::Gaussian(F::cast(3.0))).transform(data.view());
-    let make = || DiffusionMap::<F>::params(case.u("embedding_size") as usize).steps(case.u("steps") as usize);
+    let base = || DiffusionMap::<F>::params(2);
+    let set = setter(&base, |mut p, c| { if c.moved(&["embedding_size"]) { p = p.embedding_size(c.u("embedding_size") as usize); } if c.moved(&["steps"]) { p = p.steps(c.u("steps") as usize); } p });
+    let make = || set(base(), case);
     let show = |m: &DiffusionMap<F>| format!("eigvals={:?} embedding={:?}", m.eigvals(), m.embedding());
     let ops = vec![op(&make, "transform", |p| p.transform(&kernel).map(|m| show(&m)).map_err(|e| dbg(&e)), |p| Ok(show(&p.transform(&kernel))), |e| dbg(&e))];
-    judge(case, spec, &make, &|p| dbg(p), &|c| dbg(c), ops, out);
+    judge(case, spec, &base, &set, Some(&|p| p.clone()), &|p| dbg(p), &|c| dbg(c), ops, out);
 }
 
 // ------------------------------------------------------------------------------------------
@@ -508,14 +500,18 @@ macro_rules! rp_builder {
             let case = &rp_effective(case0);
             let data = Array2::from_shape_fn((4, 60), |(i, j)| ((i * 13 + j * 7) % 17) as f64 * 0.125);
             let ds = DatasetBase::from(data.clone());
-            let make = || {
-                let p = $ty::<f64>::params_with_rng(Xoshiro256Plus::seed_from_u64(42));
-                if case.s("mode") == "eps" {
-                    p.target_dim(case.u("target_dim") as usize).eps(case.f("eps"))
-                } else {
-                    p.eps(case.f("eps")).target_dim(case.u("target_dim") as usize)
+            let base = || $ty::<f64>::params_with_rng(Xoshiro256Plus::seed_from_u64(42));
+            let set = setter(&base, |p, c| {
+                if !c.moved(&["mode", "target_dim", "eps"]) {
+                    return p;
                 }
-            };
+                if c.s("mode") == "eps" {
+                    p.target_dim(c.u("target_dim") as usize).eps(c.f("eps"))
+                } else {
+                    p.eps(c.f("eps")).target_dim(c.u("target_dim") as usize)
+                }
+            });
+            let make = || set(base(), case);
             let ops = vec![op(
                 &make,
                 "fit",
@@ -524,7 +520,7 @@ macro_rules! rp_builder {
                 |e| dbg(&e),
             )];
             // RandomProjectionParams implements neither Debug nor PartialEq: no snapshot of the unchecked builder
-            judge(case, spec, &make, &|_| String::new(), &|c| format!("target_dim={:?} eps={:?}", c.target_dim(), c.eps()), ops, out);
+            judge(case, spec, &base, &set, None, &|_| String::new(), &|c| format!("target_dim={:?} eps={:?}", c.target_dim(), c.eps()), ops, out);
         }
     };
 }
@@ -590,7 +586,9 @@ pub fn platt_spec() -> BuilderSpec {
 
 fn platt<F: Float>(case: &Case, spec: &BuilderSpec, out: &mut Outcome) {
     let ds = Dataset::new(xmat::<F>(), Array1::from_shape_fn(8, |i| LAB[i] == 1 || i == 2));
-    let make = || Platt::<F, FirstColumn>::params().maxiter(case.u("maxiter") as usize).minstep(F::cast(case.f("minstep"))).sigma(F::cast(case.f("sigma")));
+    let base = || Platt::<F, FirstColumn>::params();
+    let set = setter(&base, |mut p, c| { if c.moved(&["maxiter"]) { p = p.maxiter(c.u("maxiter") as usize); } if c.moved(&["minstep"]) { p = p.minstep(F::cast(c.f("minstep"))); } if c.moved(&["sigma"]) { p = p.sigma(F::cast(c.f("sigma"))); } p });
+    let make = || set(base(), case);
     let show = |m: &Platt<F, FirstColumn>| {
         let pr: Array1<Pr> = m.predict(ds.records());
         format!("{:?} predictions={:?}", m, pr)
@@ -602,7 +600,7 @@ fn platt<F: Float>(case: &Case, spec: &BuilderSpec, out: &mut Outcome) {
         |p| p.fit_with(FirstColumn, &ds).map(|m| show(&m)).map_err(|e: PlattError| dbg(&e)),
         |e| dbg(&e),
     )];
-    judge(case, spec, &make, &|p| dbg(p), &|c| dbg(c), ops, out);
+    judge(case, spec, &base, &set, Some(&|p| p.clone()), &|p| dbg(p), &|c| dbg(c), ops, out);
     // observation (not demanded by the property statement): maxiter = 0 is reported with the
     // "did not converge" variant although a dedicated MaxIterZero variant exists
     if case.u("maxiter") == 0 {
@@ -692,12 +690,9 @@ fn mask_regex_cache(s: String) -> String {
 
 fn count_vectorizer(case: &Case, spec: &BuilderSpec, out: &mut Outcome) {
     let docs = ndarray::array!["one two three four", "two three four five", "three four five six seven", "one one one"];
-    let make = || {
-        CountVectorizer::params()
-            .n_gram_range(case.u("n_gram_min") as usize, case.u("n_gram_max") as usize)
-            .document_frequency(case.f("min_freq") as f32, case.f("max_freq") as f32)
-            .tokenizer(Tokenizer::Regex(case.s("split_regex").to_string()))
-    };
+    let base = || CountVectorizer::params();
+    let set = setter(&base, |mut p, c| { if c.moved(&["n_gram_min", "n_gram_max"]) { p = p.n_gram_range(c.u("n_gram_min") as usize, c.u("n_gram_max") as usize); } if c.moved(&["min_freq", "max_freq"]) { p = p.document_frequency(c.f("min_freq") as f32, c.f("max_freq") as f32); } if c.moved(&["split_regex"]) { p = p.tokenizer(Tokenizer::Regex(c.s("split_regex").to_string())); } p });
+    let make = || set(base(), case);
     let show = |m: &CountVectorizer| {
         let mut v = m.vocabulary().clone();
         v.sort();
@@ -715,7 +710,7 @@ fn count_vectorizer(case: &Case, spec: &BuilderSpec, out: &mut Outcome) {
             |e| dbg(&e),
         ),
     ];
-    judge(case, spec, &make, &|p| mask_regex_cache(dbg(p)), &|c| mask_regex_cache(dbg(c)), ops, out);
+    judge(case, spec, &base, &set, Some(&|p| p.clone()), &|p| mask_regex_cache(dbg(p)), &|c| mask_regex_cache(dbg(c)), ops, out);
 }
 
 // ------------------------------------------------------------------------------------------
@@ -832,7 +827,14 @@ fn counted<T>(f: impl FnOnce() -> T) -> (T, usize) {
 
 fn mock(case: &Case, spec: &BuilderSpec, out: &mut Outcome) {
     let ds = Dataset::new(xmat::<f64>(), Array1::from_shape_fn(8, |i| i as f64));
-    let make = || MockParams(MockValid { level: case.u("level") });
+    let base = || MockParams(MockValid { level: 1 });
+    let set = setter(&base, |mut p, c| {
+        if c.moved(&["level"]) {
+            p.0.level = c.u("level");
+        }
+        p
+    });
+    let make = || set(base(), case);
     // an Err result that was produced AFTER a training call is reported as Ok("trained ..."), so that
     // the generic judge flags it as trained_on_invalid
     let wrap = |r: Result<u64, String>, n: usize| match r {
@@ -881,5 +883,5 @@ fn mock(case: &Case, spec: &BuilderSpec, out: &mut Outcome) {
             |e| dbg(&e),
         ),
     ];
-    judge(case, spec, &make, &|p| dbg(p), &|c| dbg(c), ops, out);
+    judge(case, spec, &base, &set, Some(&|p| p.clone()), &|p| dbg(p), &|c| dbg(c), ops, out);
 }
